@@ -195,14 +195,13 @@ Erase(t) == LET c == th[t].cur IN
     \/ Do(t, "e5", th[t].oprev = 0, [sh EXCEPT !.head = th[t].onext], Pc(t, "e6"),
           [gh EXCEPT !.ref = Remove(@, c), !.erased = @ \cup {c}], E(t, "ast", "head", 1, th[t].onext, 0))
     \* redirect the successor (or tail); afterwards allocate the zombie record
-    \/ Do(t, "e6", th[t].onext # 0 /\ (UnlinkBeforeLog => sh.nrec < MaxR),
-          IF UnlinkBeforeLog THEN AllocRec([sh EXCEPT !.node[th[t].onext].back = th[t].oprev], 0, c) ELSE [sh EXCEPT !.node[th[t].onext].back = th[t].oprev],
-          [th[t] EXCEPT !.pc = IF UnlinkBeforeLog THEN "z1" ELSE "e9", !.zr = IF UnlinkBeforeLog THEN sh.nrec + 1 ELSE @],
-          Touch(gh, {th[t].onext}, {}), E(t, "ast", "n.back", th[t].onext, th[t].oprev, 0))
-    \/ Do(t, "e6", th[t].onext = 0 /\ (UnlinkBeforeLog => sh.nrec < MaxR),
-          IF UnlinkBeforeLog THEN AllocRec([sh EXCEPT !.tail = th[t].oprev], 0, c) ELSE [sh EXCEPT !.tail = th[t].oprev],
-          [th[t] EXCEPT !.pc = IF UnlinkBeforeLog THEN "z1" ELSE "e9", !.zr = IF UnlinkBeforeLog THEN sh.nrec + 1 ELSE @],
-          gh, E(t, "ast", "tail", 1, th[t].oprev, 0))
+    \/ Do(t, "e6", th[t].onext # 0, [sh EXCEPT !.node[th[t].onext].back = th[t].oprev],
+          Pc(t, IF UnlinkBeforeLog THEN "e6p" ELSE "e9"), Touch(gh, {th[t].onext}, {}), E(t, "ast", "n.back", th[t].onext, th[t].oprev, 0))
+    \/ Do(t, "e6", th[t].onext = 0, [sh EXCEPT !.tail = th[t].oprev],
+          Pc(t, IF UnlinkBeforeLog THEN "e6p" ELSE "e9"), gh, E(t, "ast", "tail", 1, th[t].oprev, 0))
+    \* the bookkeeping step after that (seq_cst) store: the zombie record is allocated in the code that follows it
+    \/ Do(t, "e6p", sh.nrec < MaxR, AllocRec(sh, 0, c), [th[t] EXCEPT !.pc = "z1", !.zr = sh.nrec + 1], gh,
+          [t |-> t, k |-> "pu", o |-> IF th[t].onext # 0 THEN "n.back" ELSE "tail", i |-> IF th[t].onext # 0 THEN th[t].onext ELSE 1])
     \/ LogPush(t, IF UnlinkBeforeLog THEN "e9" ELSE "e3")
     \/ Do(t, "e9", TRUE, [sh EXCEPT !.wm = 0], Pc(t, "u1"), gh, E(t, "munlock", "wm", 1, 0, 0))
 
@@ -282,7 +281,7 @@ Quiet == sh.wm = 0
 FinalContents == Quiet => /\ Linked(sh) = gh.ref
                           /\ sh.tail = (IF gh.ref = <<>> THEN 0 ELSE gh.ref[Len(gh.ref)])
                           /\ \A j \in 1..Len(gh.ref) : sh.node[gh.ref[j]].back = (IF j = 1 THEN 0 ELSE gh.ref[j - 1])
-WritersOneAtATime == Cardinality({t \in Threads : th[t].pc \in {"p2", "p3a", "p4a", "p3b", "p4b", "p5b", "p6", "e2", "e3", "e4", "e5", "e6", "e9", "z1", "z2", "z3"}}) <= 1
+WritersOneAtATime == Cardinality({t \in Threads : th[t].pc \in {"p2", "p3a", "p4a", "p3b", "p4b", "p5b", "p6", "e2", "e3", "e4", "e5", "e6", "e6p", "e9", "z1", "z2", "z3"}}) <= 1
 \* C14: read-side steps (registration, begin, advance, element read) are always enabled
 ReaderNeverBlocked == \A t \in Threads : (th[t].pc \in {"g1", "g2", "g3", "b1", "b2", "b3"} /\ th[t].op \in {0, 5, 8}) => ENABLED Step(t)
 \* everything terminates (no reader/writer deadlock or livelock under fairness)
